@@ -262,6 +262,8 @@ def list_classes(ctx, case):
     ts, te = case["ts"], case["te"]
     N = len(tr)
     ctx.count("N=%s" % (N if N < 5 else "5+"))
+    if N >= 3:
+        ctx.count("N>=3")
     if N >= 4:
         ctx.count("N>=4")
     if N >= 5:
